@@ -91,6 +91,14 @@ def handle (st : DState) (op : String) (args impl : List String) : Option (DStat
     (upd r.1 h, judge tag' (errOut r.2 okToks) impl rules)
   -- a property of an OLD-format file (< 1.1.1: one compound record per value; prepared with the HDF5 C API), read through the public
   -- API: type, count, values and uncertainty are what the records hold — judged on the answer alone, the request carries the values
+  if op == "pv_relabel" then
+    some (match args with
+      | [x, y, z, vals] =>
+        let vs := (parseList vals).getD []
+        let ty := ((vs.head?.map fun v => (v.splitOn ":").headD "").getD "")
+        let expect := ["ok", s!"[{x},{y},{z}]", ty, toString vs.length, vals]
+        (st, judge s!"pv_relabel.{x}.{y}.{z}" expect impl [("values_are_read_back_under_every_version_label_of_the_layout", impl == expect)])
+      | _ => (st, .malformed "pv_relabel")) else
   if op == "pv_old" then
     some (match args with
       | [ty, vals, unc] =>
